@@ -2,7 +2,9 @@
    Models: Gram/Run.v (the generated parser's main loop), Gram/Minimize.v (lalr/minimize.go and the finite
    quotient check).  Only statements, an example and Print Assumptions here. *)
 From Coq Require Import List ZArith Bool.
-From TM Require Import Gram.PTables Gram.Run Gram.Minimize Gram.Minimize_proofs.
+From TM Require Import Gram.PTables Gram.Optimize Gram.Run Gram.Minimize Gram.Minimize_proofs Gram.MinNumber_proofs
+  Gram.MinRefine_proofs Gram.MinimizeWf Gram.MinPartition_proofs Gram.MinGoto_proofs Gram.MinTables_proofs
+  Gram.MinActions_proofs Gram.MinFinal_proofs.
 Import ListNotations.
 Local Open Scope Z_scope.
 
@@ -62,3 +64,168 @@ Proof. vm_compute. repeat split; reflexivity. Qed.
 
 Print Assumptions C06_minimized_parser_simulates.
 Print Assumptions C06_quotient_simulation.
+
+(* ================= the model of lalr.minimize always produces a valid quotient ================= *)
+(* (1) first-occurrence numbering (container.IntSliceSet.Insert in a loop): as many ids as signatures, every id below
+   the count, equal ids exactly for equal signatures, every id below the count is used, the count is the number of
+   distinct signatures, and the numbering of a list extends the numbering of every prefix by first occurrence. *)
+Theorem C06_number_all_spec : forall sigs ids c, number_all sigs = (ids, c) ->
+  length ids = length sigs /\
+  (forall i, (i < length sigs)%nat -> 0 <= nth i ids 0 < c) /\
+  (forall i j, (i < length sigs)%nat -> (j < length sigs)%nat -> (nth i ids 0 = nth j ids 0 <-> nth i sigs [] = nth j sigs [])) /\
+  (forall k, 0 <= k < c -> exists i, (i < length sigs)%nat /\ nth i ids 0 = k) /\
+  (exists seen, NoDup seen /\ (forall x, In x seen <-> In x sigs) /\ c = Z.of_nat (length seen)).
+Proof. exact number_all_spec. Qed.
+
+Theorem C06_number_all_first_occurrence : forall a x ids c, number_all a = (ids, c) ->
+  exists k c', number_all (a ++ [x]) = (ids ++ [k], c') /\
+    (~ In x a -> k = c /\ c' = c + 1) /\
+    (In x a -> c' = c /\ exists j, (j < length a)%nat /\ nth j a [] = x /\ k = nth j ids 0).
+Proof. exact number_all_snoc. Qed.
+
+(* pairwise distinct signatures at the front of the list are numbered 0, 1, 2, ... *)
+Theorem C06_number_all_distinct_prefix : forall a b ids c, NoDup a -> number_all (a ++ b) = (ids, c) ->
+  forall i, (i < length a)%nat -> nth i ids 0 = Z.of_nat i.
+Proof. exact number_all_nodup_prefix. Qed.
+
+Print Assumptions C06_number_all_spec.
+Print Assumptions C06_number_all_first_occurrence.
+Print Assumptions C06_number_all_distinct_prefix.
+
+(* (2) one round of refinePartitions only splits classes; hence (the old partition being a numbering onto
+   0..c-1) the class count never decreases *)
+Theorem C06_refine_once_only_splits : forall trans p, length trans = length p -> forall p' c', refine_once trans p = (p', c') ->
+  forall s s', 0 <= s < Z.of_nat (length p) -> 0 <= s' < Z.of_nat (length p) -> zn p' s = zn p' s' -> zn p s = zn p s'.
+Proof. exact refine_once_refines. Qed.
+
+Theorem C06_refine_once_count_monotone : forall trans p, length trans = length p -> forall p' c', refine_once trans p = (p', c') ->
+  forall c, (forall k, 0 <= k < c -> exists s, 0 <= s < Z.of_nat (length p) /\ zn p s = k) -> 0 <= c -> c <= c'.
+Proof. exact refine_once_count_mono. Qed.
+
+(* (3) the exit test: if the count did not grow, the OLD partition (the one refine returns) is a congruence: states
+   in one class have the same symbol list and their targets are in the same classes ([trans_sig]) *)
+Theorem C06_refine_once_exit_is_congruence : forall trans p, length trans = length p -> forall p' c', refine_once trans p = (p', c') ->
+  forall c, (forall k, 0 <= k < c -> exists s, 0 <= s < Z.of_nat (length p) /\ zn p s = k) -> 0 <= c -> c' = c ->
+  forall s s', 0 <= s < Z.of_nat (length p) -> 0 <= s' < Z.of_nat (length p) -> zn p s = zn p s' ->
+  trans_sig p (row trans s) = trans_sig p (row trans s').
+Proof. exact refine_once_stable. Qed.
+
+(* (2)+(3)+(4) for the loop: with enough fuel (fuel + count > number of states; minimize passes n+1) the RETURNED pair
+   is a numbering onto 0..c'-1 that refines the partition the loop started with, is stable, and still numbers the
+   first k states 0..k-1 if the initial one did *)
+Theorem C06_refine_loop : forall trans k pinit, k <= Z.of_nat (length trans) ->
+  forall fuel p c p' c', numbering trans p c -> refines trans p pinit -> front_id k p ->
+  Z.of_nat fuel + c > Z.of_nat (length trans) -> refine fuel trans p c = (p', c') ->
+  numbering trans p' c' /\ refines trans p' pinit /\ front_id k p' /\ stable trans p'.
+Proof. exact refine_spec. Qed.
+
+(* the partition computed inside [minimize] (final_partition is the let-bound pair (remap, cnt) of the model, see
+   minimize_unfold): the only assumptions are 0 <= NumStates and #inputs <= NumStates *)
+Theorem C06_minimize_partition : forall mi, 0 <= mi_num_states mi -> zlength (mi_final mi) <= mi_num_states mi ->
+  forall p0 c0, init_partition mi = (p0, c0) -> forall remap cnt, final_partition mi = (remap, cnt) ->
+  let trans := state_transitions (mi_enc mi) (mi_num_states mi) in
+  numbering trans remap cnt /\ refines trans remap p0 /\ front_id (zlength (mi_final mi)) remap /\ stable trans remap.
+Proof. exact final_partition_spec. Qed.
+
+(* merged states have the same action signature (same kind of action, equivalent rules, same Lalr row up to rule classes) *)
+Theorem C06_merged_states_same_signature : forall mi, 0 <= mi_num_states mi -> zlength (mi_final mi) <= mi_num_states mi ->
+  forall p0 c0, init_partition mi = (p0, c0) -> forall remap cnt, final_partition mi = (remap, cnt) ->
+  forall s s', 0 <= s < mi_num_states mi -> 0 <= s' < mi_num_states mi -> zn remap s = zn remap s' ->
+  state_signature (mi_enc mi) (rule_classes mi) (accept_on_entry mi) s =
+  state_signature (mi_enc mi) (rule_classes mi) (accept_on_entry mi) s'.
+Proof. exact remap_sig. Qed.
+
+(* (4) entry state i of input i keeps its number; pinned states (start states, final states of no-eoi inputs that are
+   not dead ends, final states reachable from a foreign start state) are never merged with any other state *)
+Theorem C06_entry_states_keep_numbers : forall mi, 0 <= mi_num_states mi -> zlength (mi_final mi) <= mi_num_states mi ->
+  forall p0 c0, init_partition mi = (p0, c0) -> forall remap cnt, final_partition mi = (remap, cnt) ->
+  forall i, 0 <= i < zlength (mi_final mi) -> zn remap i = i.
+Proof. exact remap_entry. Qed.
+
+Theorem C06_pinned_states_not_merged : forall mi, 0 <= mi_num_states mi -> zlength (mi_final mi) <= mi_num_states mi ->
+  forall p0 c0, init_partition mi = (p0, c0) -> forall remap cnt, final_partition mi = (remap, cnt) ->
+  forall s s', 0 <= s < mi_num_states mi -> 0 <= s' < mi_num_states mi -> In s (accept_on_entry mi) ->
+  zn remap s = zn remap s' -> s = s'.
+Proof. exact remap_pinned_singleton. Qed.
+
+Print Assumptions C06_refine_once_only_splits.
+Print Assumptions C06_refine_once_count_monotone.
+Print Assumptions C06_refine_once_exit_is_congruence.
+Print Assumptions C06_refine_loop.
+Print Assumptions C06_minimize_partition.
+Print Assumptions C06_merged_states_same_signature.
+Print Assumptions C06_entry_states_keep_numbers.
+Print Assumptions C06_pinned_states_not_merged.
+
+(* (5) gotoState (linear search below 32 entries, binary search above) is a lookup in the (from, to) pairs of the
+   symbol, provided the Goto offsets are even, ordered and inside FromTo and the [from]s strictly increase *)
+Theorem C06_goto_state_is_lookup : forall t x s, goto_layout_ok t x -> goto_rel (seg t x) s (goto_state t s x).
+Proof. exact goto_state_spec. Qed.
+
+(* merged states have the same outgoing symbols into merged targets (the congruence, read off FromTo) *)
+Theorem C06_merged_states_congruent : forall mi, 0 <= mi_num_states mi -> zlength (mi_final mi) <= mi_num_states mi ->
+  forall p0 c0, init_partition mi = (p0, c0) -> forall remap cnt, final_partition mi = (remap, cnt) ->
+  forall f s x tt, 0 <= f < mi_num_states mi -> 0 <= s < mi_num_states mi -> zn remap f = zn remap s ->
+  0 <= x < zlength (d_goto (mi_enc mi)) - 1 -> In (f, tt) (seg (mi_enc mi) x) ->
+  exists q, In (s, q) (seg (mi_enc mi) x) /\ zn remap q = zn remap tt.
+Proof. exact remap_congruence. Qed.
+
+(* the rebuilt Goto/FromTo (remapped edges, insertion-sorted by [from], compacted, concatenated): gotoState on them
+   returns the remapped old target, and -1 exactly where the old tables have no entry; any Action/Lalr arrays *)
+Theorem C06_rebuilt_goto_commutes : forall mi, 0 <= mi_num_states mi -> zlength (mi_final mi) <= mi_num_states mi ->
+  forall p0 c0, init_partition mi = (p0, c0) -> forall remap cnt, final_partition mi = (remap, cnt) ->
+  forall act' lalr' s x, 0 <= s < mi_num_states mi -> 0 <= x < zlength (d_goto (mi_enc mi)) - 1 ->
+  wf_goto_sym (mi_enc mi) (mi_num_states mi) x = true ->
+  let t' := mkDefaultEnc act' lalr' (offs 0 (per_sym mi remap) ++ [tot (per_sym mi remap)]) (flat_map flat (per_sym mi remap)) in
+  let q := goto_state (mi_enc mi) s x in
+  (q = -1 /\ goto_state t' (zn remap s) x = -1) \/ (0 <= q < mi_num_states mi /\ goto_state t' (zn remap s) x = zn remap q).
+Proof. exact goto_commutes. Qed.
+
+(* states with the same signature resolve every terminal to equivalent actions: the same shift/error code, or
+   reductions of rules with the same full key (length, lhs, action, type, flags) *)
+Theorem C06_same_signature_equivalent_actions : forall mi rule_sym,
+  (forall r, 0 <= r < Z.of_nat (length (mi_rule_keys mi)) -> wf_rule_key mi rule_sym r = true) ->
+  (forall s, 0 <= s < mi_num_states mi -> wf_action (mi_enc mi) (zlength (mi_rule_len mi)) s = true) ->
+  forall s s' term, 0 <= s < mi_num_states mi -> 0 <= s' < mi_num_states mi ->
+  state_signature (mi_enc mi) (rule_classes mi) (accept_on_entry mi) s =
+  state_signature (mi_enc mi) (rule_classes mi) (accept_on_entry mi) s' ->
+  act_equiv mi rule_sym (act1 (mi_enc mi) (zn (d_action (mi_enc mi)) s) term)
+                        (act1 (mi_enc mi) (zn (d_action (mi_enc mi)) s') term).
+Proof. exact sig_act_equiv. Qed.
+
+(* (6) THE GENERATOR THEOREM: for every well-formed input (wf_min_input, Gram/MinimizeWf.v: Goto offsets even, ordered,
+   in range; per symbol the [from]s strictly increasing and all states in range; every Lalr row referenced by a state
+   terminated inside the array by (negative terminal, -2) and holding only shift/error/existing rules, i.e. no LALR(k)
+   rows; Action rules in range; one start state per input, numbered 0..ninputs-1, final states in range; grammar rules
+   first, their keys starting with the left-hand side rule_sym gives; all rules reduce to nonterminals) the model of
+   lalr.minimize returns tables and a remapping that pass the quotient check.  No per-table evaluation needed. *)
+Theorem C06_minimize_passes_check : forall mi rule_sym terms ninputs,
+  wf_min_input mi rule_sym terms ninputs = true -> check_min mi rule_sym (minimize mi) terms ninputs = true.
+Proof. exact minimize_passes_check. Qed.
+
+(* ... hence the simulation theorem holds for the model's output without the check_min hypothesis *)
+Theorem C06_minimize_simulates : forall mi rule_sym terms ninputs, wf_min_input mi rule_sym terms ninputs = true ->
+  forall i, 0 <= i < ninputs ->
+  forall end_state, 0 <= end_state < mi_num_states mi ->
+  forall fuel eoff input, Forall (fun tk => 0 <= t_sym tk < terms) input ->
+  let mo := minimize mi in
+  let m := default_machine (mi_enc mi) (mi_rule_len mi) rule_sym in
+  let m' := default_machine (mo_enc mo) (mi_rule_len mi) rule_sym in
+  let remap := zn (mo_remap mo) in
+  (forall s, In s (visited m fuel eoff end_state (mkConfig [mkEntry 0 0 0 i] i input 0 [])) ->
+             remap s = remap end_state -> s = end_state) ->
+  fst (run fuel m i end_state eoff input) = fst (run fuel m' i (remap end_state) eoff input) /\
+  config_rel remap (rel_rule_of mi rule_sym)
+             (snd (run fuel m i end_state eoff input)) (snd (run fuel m' i (remap end_state) eoff input)).
+Proof. exact minimize_simulates. Qed.
+
+(* non-vacuity: the example tables are well-formed (and two of their states do get merged, see C06_example) *)
+Example C06_wf_example : wf_min_input ex_mi [3; 3] 3 1 = true.
+Proof. vm_compute. reflexivity. Qed.
+
+Print Assumptions C06_goto_state_is_lookup.
+Print Assumptions C06_merged_states_congruent.
+Print Assumptions C06_rebuilt_goto_commutes.
+Print Assumptions C06_same_signature_equivalent_actions.
+Print Assumptions C06_minimize_passes_check.
+Print Assumptions C06_minimize_simulates.
